@@ -34,7 +34,7 @@ type crPeer struct {
 
 type crSc struct {
 	Peers       []crPeer `json:"peers"`
-	Seeds       []int    `json:"seeds"` // may contain duplicates
+	Seeds       []int    `json:"seeds"`     // may contain duplicates
 	SeedAddr    []bool   `json:"seed_addr"` // whether the seed entry carries addresses itself
 	Parallelism int      `json:"parallelism"`
 }
